@@ -65,12 +65,12 @@ def stateJ (w : World) (s : State) : Json :=
 def opPoker (j : Json) : P Json := do
   let w := World.std
   let cfg ← asCfg j
-  let rk := rankFnOf cfg.game
+  let env : Env := ⟨w, Float53.rnd, rankFnOf cfg.game⟩
   let resume ← asOpt asResume (fldD j "resume" Json.null)
   let pre ← asOpt (asList asOp) (fldD j "pre" Json.null)
   let ops ← asArr (fldD j "ops" (Json.arr #[]))
   let s0 : Except Err State := match pre with
-    | some pre => fromActionDicts w rk cfg pre
+    | some pre => fromActionDicts env cfg pre
     | none => construct cfg resume
   match s0 with
   | .error e => pure (Json.mkObj [("ctor", errJ e), ("steps", Json.arr #[])])
@@ -85,7 +85,7 @@ def opPoker (j : Json) : P Json := do
       let kind := (fldD o "k" (Json.str "act"))
       if kind == Json.str "reset" then
         let log ← asList asOp (← fld o "log")
-        match s.resetFromActionDicts w rk log with
+        match s.resetFromActionDicts env log with
         | .ok s' => s := s'; out := out.push (Json.mkObj [("r", Json.str "ok"), ("s", stateJ w s')])
         | .error e => dead := true; out := out.push (Json.mkObj [("r", Json.str e.name)])
       else
@@ -94,7 +94,7 @@ def opPoker (j : Json) : P Json := do
         match s.appendAction w op.player op.ty op.amount with
         | .error e => out := out.push (Json.mkObj [("r", Json.str e.name)])
         | .ok s1 =>
-          match s1.advanceAction rk with
+          match s1.advanceAction env with
           | .error e =>
             if !probe then dead := true
             out := out.push (Json.mkObj [("r", Json.str ("internal:" ++ e.name))])
